@@ -286,11 +286,13 @@ type putWriter struct {
 	path   string
 	buf    []byte
 	closed bool
+	failed bool // a Write failed: an atomic put is then never installed
 }
 
 func (w *putWriter) Write(p []byte) (int, error) {
 	op, err := w.e.step("put-write", w.path, len(p))
 	if err != nil {
+		w.failed = true
 		return 0, err
 	}
 	defer w.e.done(op)
@@ -315,6 +317,10 @@ func (w *putWriter) Close() error {
 	}
 	defer w.e.done(op)
 	if w.e.Mode == Atomic {
+		if w.failed {
+			// idealised object store: an upload whose body failed is aborted, nothing becomes visible
+			return fmt.Errorf("put %s: %w", w.path, ErrInjected)
+		}
 		w.e.Store.mu.Lock()
 		w.e.Store.files[w.path] = append([]byte{}, w.buf...)
 		w.e.Store.mu.Unlock()
